@@ -84,6 +84,7 @@ func run(in *bufio.Scanner, w *bufio.Writer) {
 			TempThresh: uint16(kv(f, "thresh")), DeltaThresh: uint16(kv(f, "delta")), CountThresh: kv(f, "count"),
 			FrameCompareGap: kv(f, "gap"), UseOneDiffOnly: kv(f, "one") == 1, WarmerOnly: kv(f, "warmer") == 1,
 			EdgePixels: kv(f, "edge"),
+			Verbose: kv(f, "verbose") == 1, // the debug tracker must be an observer only
 		}
 		return motion.NewMotionDetector(mc, kv(f, "preview"), cam)
 	}
@@ -153,8 +154,8 @@ type dcfg struct {
 }
 
 func (c dcfg) header(id int, kind string) string {
-	return fmt.Sprintf("case %d detector kind=%s w=%d h=%d edge=%d gap=%d one=%d delta=%d count=%d thresh=%d tmin=%d tmax=%d warmer=%d dyn=%d preview=%d ffcns=10000000000",
-		id, kind, c.w, c.h, c.edge, c.gap, c.one, c.delta, c.count, c.thresh, c.tmin, c.tmax, c.warmer, c.dyn, c.preview)
+	return fmt.Sprintf("case %d detector kind=%s w=%d h=%d edge=%d gap=%d one=%d delta=%d count=%d thresh=%d tmin=%d tmax=%d warmer=%d dyn=%d preview=%d ffcns=10000000000 verbose=%d",
+		id, kind, c.w, c.h, c.edge, c.gap, c.one, c.delta, c.count, c.thresh, c.tmin, c.tmax, c.warmer, c.dyn, c.preview, id%5/4)
 }
 
 type frame [][]int
